@@ -6,7 +6,7 @@ use crate::ug::ast::*;
 use crate::ug::build::*;
 use serde_json::{Value, json};
 
-pub const RECEIVERS: [&str; 11] = ["int32", "string", "bool", "S", "E2", "Box[int32]", "Box[string]", "float64", "int8", "uint64", "unit"];
+pub const RECEIVERS: [&str; 14] = ["int32", "string", "bool", "S", "E2", "Box[int32]", "Box[string]", "float64", "int8", "uint64", "unit", "Box[Box[int32]]", "Box[S]", "Box[E2]"];
 pub const KINDS: [&str; 14] =
     ["inherent", "trait-one-impl", "trait-two-impls", "two-traits-same-name", "dyn-containers", "dyn-builtin-containers", "dyn-direct", "coercion-in-receiver", "receiver-expression-forms", "dyn-argument:trait-path", "dyn-argument:bound-path", "dyn-argument:bound-dot", "dyn-argument:inherent-path", "dyn-argument:inherent-dot"];
 
@@ -22,6 +22,10 @@ fn rty(name: &str) -> Ty {
         "S" => Ty::named("S"),
         "E2" => Ty::named("E2"),
         "Box[int32]" => Ty::Named("Box".into(), vec![Ty::i32()]),
+        // generic instances of generic instances, of a struct, of a tuple
+        "Box[Box[int32]]" => Ty::Named("Box".into(), vec![Ty::Named("Box".into(), vec![Ty::i32()])]),
+        "Box[S]" => Ty::Named("Box".into(), vec![Ty::named("S")]),
+        "Box[E2]" => Ty::Named("Box".into(), vec![Ty::named("E2")]),
         _ => Ty::Named("Box".into(), vec![Ty::Str]),
     }
 }
@@ -39,6 +43,9 @@ fn rval(name: &str, k: i128) -> E {
         "S" => E::StructLit("S".into(), vec![("a".into(), int(20 + k))], vec![]),
         "E2" => E::Ctor("E2".into(), "Y".into(), false, vec![E::Bool(k % 2 == 1)], vec![]),
         "Box[int32]" => E::StructLit("Box".into(), vec![("v".into(), int(30 + k))], vec![Ty::i32()]),
+        "Box[Box[int32]]" => E::StructLit("Box".into(), vec![("v".into(), E::StructLit("Box".into(), vec![("v".into(), int(40 + k))], vec![Ty::i32()]))], vec![Ty::Named("Box".into(), vec![Ty::i32()])]),
+        "Box[S]" => E::StructLit("Box".into(), vec![("v".into(), E::StructLit("S".into(), vec![("a".into(), int(50 + k))], vec![]))], vec![Ty::named("S")]),
+        "Box[E2]" => E::StructLit("Box".into(), vec![("v".into(), E::Ctor("E2".into(), "Y".into(), false, vec![E::Bool(k % 2 == 0)], vec![]))], vec![Ty::named("E2")]),
         _ => E::StructLit("Box".into(), vec![("v".into(), s(&format!("b{}", k)))], vec![Ty::Str]),
     }
 }
@@ -56,13 +63,16 @@ fn rdesc(name: &str, e: E) -> E {
         "S" => add(s("S"), i2s(E::Field(Box::new(e), "a".into()))),
         "E2" => s("E2"),
         "Box[int32]" => add(s("Bi"), i2s(E::Field(Box::new(e), "v".into()))),
+        "Box[Box[int32]]" => add(s("BB"), i2s(E::Field(Box::new(E::Field(Box::new(e), "v".into())), "v".into()))),
+        "Box[S]" => add(s("BS"), i2s(E::Field(Box::new(E::Field(Box::new(e), "v".into())), "a".into()))),
+        "Box[E2]" => s("BE"),
         _ => add(s("Bs"), E::Field(Box::new(e), "v".into())),
     }
 }
 
 fn type_head(name: &str) -> &str {
     match name {
-        "Box[int32]" | "Box[string]" => "Box",
+        n if n.starts_with("Box[") => "Box",
         o => o,
     }
 }
@@ -103,7 +113,7 @@ pub fn build(kind: &str, recv: &str, other: &str, nargs: usize) -> Option<Progra
     match kind {
         "inherent" => {
             // impl block: for generic Box instances the impl is on the concrete instance type
-            if matches!(recv, "int32" | "string" | "bool" | "float64" | "int8" | "uint64" | "unit" | "Box[int32]" | "Box[string]") {
+            if matches!(recv, "int32" | "string" | "bool" | "float64" | "int8" | "uint64" | "unit") || recv.starts_with("Box[") {
                 return None; // inherent impls on primitives are builtin-only; impls on one instance of a generic type are not claimed
             }
             let for_ty = rty(recv);
@@ -430,7 +440,7 @@ impl Family for Methods {
         &["C17", "C01", "C02", "C03", "C04"]
     }
     fn rule(&self) -> &'static str {
-        "receiver types {int32,string,bool,S,E2,Box[int32],Box[string],float64,int8,uint64,unit} x 0-2 extra arguments x {inherent, trait with one impl, trait with impls for two receiver types, two traits with the same method name, dyn values through a destructured tuple, a struct field and an enum payload, a literal / constructor expression coerced to dyn directly, a path-form call whose receiver is a call with a dyn-coerced argument, a method with a `dyn Tr` parameter called in every form with a concrete argument that must be coerced, a path-form call whose receiver is a match / if expression with a scrutinee or arm variable of the other implementing type, dyn values read back through array_get/vec_get (may be rejected: inference limitation, tagged)}; each program calls every applicable form (x.m(a), T::m(x,a), Tr::m(x,a), through a T: Tr bound in dot and path form, Tr::m(d,a) on the value coerced to dyn Tr) and prints each result; 12 + 30 + 114 + 4 negative programs (one method name defined by two inherent impls applying to the same receiver (generic + exact instance, two blocks; every order of 2-4 impl blocks of one generic type in which exactly two overlapping blocks define the name); a type and a trait of one name (rejected, or both call forms print the same); dyn coercion without impl, ambiguous method under two bounds/traits, unsatisfied bound, unknown method, standalone method value; the same method name in two traits at every pair of arities 0..2 called in dot form through two bounds and on a concrete receiver with every fitting argument count) that must be rejected with a diagnostic. non-trivial = programs with >= 2 impls; distinct = distinct source text"
+        "receiver types {int32,string,bool,S,E2,Box[int32],Box[string],float64,int8,uint64,unit,Box[Box[int32]],Box[S],Box[E2]} x 0-2 extra arguments x {inherent, trait with one impl, trait with impls for two receiver types, two traits with the same method name, dyn values through a destructured tuple, a struct field and an enum payload, a literal / constructor expression coerced to dyn directly, a path-form call whose receiver is a call with a dyn-coerced argument, a method with a `dyn Tr` parameter called in every form with a concrete argument that must be coerced, a path-form call whose receiver is a match / if expression with a scrutinee or arm variable of the other implementing type, dyn values read back through array_get/vec_get (may be rejected: inference limitation, tagged)}; each program calls every applicable form (x.m(a), T::m(x,a), Tr::m(x,a), through a T: Tr bound in dot and path form, Tr::m(d,a) on the value coerced to dyn Tr) and prints each result; 12 + 30 + 114 + 4 negative programs (one method name defined by two inherent impls applying to the same receiver (generic + exact instance, two blocks; every order of 2-4 impl blocks of one generic type in which exactly two overlapping blocks define the name); a type and a trait of one name (rejected, or both call forms print the same); dyn coercion without impl, ambiguous method under two bounds/traits, unsatisfied bound, unknown method, standalone method value; the same method name in two traits at every pair of arities 0..2 called in dot form through two bounds and on a concrete receiver with every fitting argument count) that must be rejected with a diagnostic. non-trivial = programs with >= 2 impls; distinct = distinct source text"
     }
     fn cases(&self, _tier: Tier) -> Box<dyn Iterator<Item = Value> + '_> {
         let mut v = Vec::new();
